@@ -158,6 +158,8 @@ structure Invk where
   inProgress : Bool := false
   timer : Option Nat := none          -- armed router-side timeout: deadline (ms)
   options : Dict := []
+  regId : Nat := 0                    -- `reg`: the registration the first chunk was routed to
+  fwdTimeout : Bool := false          -- … and its forward_timeout setting
   deriving Inhabited
 
 structure Dealer where
